@@ -6,7 +6,7 @@ S = dict(mode="bv", spec_module="spec_geonet")
 P = ["C02", "C01"]
 DE = "flexstack.geonet.exceptions:DecodeError"
 
-contract(f"{GBCH}:GBCExtendedHeader.encode", props=P + ["C07"], shapes={"self": GBC}, requires=["gbc_valid(self)"],
+contract(f"{GBCH}:GBCExtendedHeader.encode", returns=T.bytes_n(44), props=P + ["C07"], shapes={"self": GBC}, requires=["gbc_valid(self)"],
          ensures={"wire": "result == gbc_int(self).to_bytes(44, 'big')"},
          canary={"ab_swapped": "result == (gbc_int(self) + (self.b - self.a) * 2 ** 48 + (self.a - self.b) * 2 ** 32).to_bytes(44, 'big') and self.a != self.b"}, **S)
 contract(f"{GBCH}:GBCExtendedHeader.decode", props=P + ["C04", "C07"], shapes={"header": T.bytes(0, 2000)}, returns=GBC,
@@ -16,13 +16,13 @@ contract(f"{GBCH}:GBCExtendedHeader.decode", props=P + ["C04", "C07"], shapes={"
                   "area": "result.latitude == sgn(be(header, 28, 4), 32) and result.longitude == sgn(be(header, 32, 4), 32) and result.a == be(header, 36, 2) and result.b == be(header, 38, 2) and result.angle == be(header, 40, 2)",
                   "reserved2": "result.reserved2 == be(header, 42, 2)"},
          canary={"lat_unsigned": "result.latitude == be(header, 28, 4)"}, **S)
-contract(f"{TSBH}:TSBExtendedHeader.encode", props=P, shapes={"self": TSB}, requires=["ext_valid(self)"],
+contract(f"{TSBH}:TSBExtendedHeader.encode", returns=T.bytes_n(28), props=P, shapes={"self": TSB}, requires=["ext_valid(self)"],
          ensures={"wire": "result == tsb_int(self).to_bytes(28, 'big')"}, **S)
 contract(f"{TSBH}:TSBExtendedHeader.decode", props=P + ["C04"], shapes={"header": T.bytes(0, 2000)}, returns=TSB,
          raises={DE: "len(header) < 28", "ValueError": "len(header) >= 28 and st_field(header, 4) > 12"},
          ensures={"sn": "result.sn == be(header, 0, 2)", "reserved": "result.reserved == be(header, 2, 2)",
                   "so_pv": "lpv_of_bytes_ok(result.so_pv, header, 4)"}, **S)
-contract(f"{GUCH}:GUCExtendedHeader.encode", props=P, shapes={"self": GUC},
+contract(f"{GUCH}:GUCExtendedHeader.encode", returns=T.bytes_n(48), props=P, shapes={"self": GUC},
          requires=["ext_valid(self)", "spv_valid(self.de_pv)"],
          ensures={"wire": "result == guc_int(self).to_bytes(48, 'big')"}, **S)
 contract(f"{GUCH}:GUCExtendedHeader.decode", props=P + ["C04"], shapes={"header": T.bytes(0, 2000)}, returns=GUC,
@@ -34,7 +34,7 @@ contract(f"{GUCH}:GUCExtendedHeader.decode", props=P + ["C04"], shapes={"header"
 contract(f"{GUCH}:GUCExtendedHeader.with_de_pv", props=["C02", "C06"], shapes={"self": GUC, "de_pv": SPV},
          ensures={"de": "same_spv(result.de_pv, de_pv)",
                   "rest": "result.sn == self.sn and result.reserved == self.reserved and same_lpv(result.so_pv, self.so_pv)"}, **S)
-contract(f"{LSH}:LSRequestExtendedHeader.encode", props=P, shapes={"self": LSREQ}, requires=["ext_valid(self)"],
+contract(f"{LSH}:LSRequestExtendedHeader.encode", returns=T.bytes_n(36), props=P, shapes={"self": LSREQ}, requires=["ext_valid(self)"],
          ensures={"wire": "result == ls_request_int(self).to_bytes(36, 'big')"}, **S)
 contract(f"{LSH}:LSRequestExtendedHeader.decode", props=P + ["C04"], shapes={"header": T.bytes(0, 2000)}, returns=LSREQ,
          raises={DE: "len(header) < 36",
@@ -42,7 +42,7 @@ contract(f"{LSH}:LSRequestExtendedHeader.decode", props=P + ["C04"], shapes={"he
          ensures={"sn": "result.sn == be(header, 0, 2)", "reserved": "result.reserved == be(header, 2, 2)",
                   "so_pv": "lpv_of_bytes_ok(result.so_pv, header, 4)",
                   "addr": "result.request_gn_addr.m.value == bits(be(header, 28, 1), 7, 1) and result.request_gn_addr.st.value == st_field(header, 28) and result.request_gn_addr.mid.mid == header[30:36]"}, **S)
-contract(f"{LSH}:LSReplyExtendedHeader.encode", props=P, shapes={"self": LSREP},
+contract(f"{LSH}:LSReplyExtendedHeader.encode", returns=T.bytes_n(48), props=P, shapes={"self": LSREP},
          requires=["ext_valid(self)", "spv_valid(self.de_pv)"],
          ensures={"wire": "result == guc_int(self).to_bytes(48, 'big')"}, **S)
 contract(f"{LSH}:LSReplyExtendedHeader.decode", props=P + ["C04"], shapes={"header": T.bytes(0, 2000)}, returns=LSREP,
@@ -53,13 +53,13 @@ contract(f"{LSH}:LSReplyExtendedHeader.decode", props=P + ["C04"], shapes={"head
                   "de_pv": "spv_of_bytes_ok(result.de_pv, header, 28)"}, **S)
 
 # ---------------------------------------------------------------- BTP headers
-contract(f"{BTPH}:BTPAHeader.encode", props=P, shapes={"self": BTPA},
+contract(f"{BTPH}:BTPAHeader.encode", returns=T.bytes_n(4), props=P, shapes={"self": BTPA},
          requires=["0 <= self.destination_port < 65536", "0 <= self.source_port < 65536"],
          ensures={"wire": "result == (self.destination_port * 65536 + self.source_port).to_bytes(4, 'big')"},
          canary={"swapped": "result == (self.source_port * 65536 + self.destination_port).to_bytes(4, 'big') and self.source_port != self.destination_port"}, **S)
 contract(f"{BTPH}:BTPAHeader.decode", props=P, shapes={"data": T.bytes(4, 2000)},
          ensures={"fields": "result.destination_port == be(data, 0, 2) and result.source_port == be(data, 2, 2)"}, **S)
-contract(f"{BTPH}:BTPBHeader.encode", props=P, shapes={"self": BTPB},
+contract(f"{BTPH}:BTPBHeader.encode", returns=T.bytes_n(4), props=P, shapes={"self": BTPB},
          requires=["0 <= self.destination_port < 65536", "0 <= self.destination_port_info < 65536"],
          ensures={"wire": "result == (self.destination_port * 65536 + self.destination_port_info).to_bytes(4, 'big')"}, **S)
 contract(f"{BTPH}:BTPBHeader.decode", props=P, shapes={"data": T.bytes(4, 2000)},
